@@ -44,12 +44,17 @@ def impl_main(payload):
         else:
             ea = GeneralizedCrowdingEA(ev, SinglePointCrossover(), SinglePointMutation(small_float), 0.5, 0.4)
         isl = Island(ea, gen, n, hall_of_fame=HallOfFame(3))
-        opt = SerialArchipelago(isl, num_islands=rng.randint(2, 5), hall_of_fame=HallOfFame(3)) if kind >= 2 else isl
+        opt = SerialArchipelago(isl, num_islands=rng.choice([1, 1, 2, 3, 4, 5]), hall_of_fame=HallOfFame(3)) if kind >= 2 else isl
         islands = opt.islands if hasattr(opt, "islands") else [opt]
         prev, offered_min = None, None
         traj = []
         for g in range(payload["gens"]):
-            opt.evolve(1)
+            try:
+                opt.evolve(1)
+            except Exception as e:  # noqa   an exception is the loss of the whole run
+                out["viol"].append("seed %d kind %d (%d islands of %d): evolve raised %r at generation %d"
+                                   % (s, kind, len(islands), n, e, g))
+                break
             for i in islands:
                 i.evaluate_population()
             cur = best_of([i.population for i in islands])
@@ -126,7 +131,7 @@ def check(rep, proof):
         rule="(i) real AgeFitness / DeterministicCrowding selection calls replayed through Model/Selection.v (as in C08) and checked "
              "directly for the covering clause (every dropped non-NaN fitness is matched by a kept one that is no larger); (ii) "
              "monitor: real seeded evolutions (AgeFitnessEA with selection sizes 2-5, GeneralizedCrowdingEA with deterministic "
-             "crowding; islands and serial archipelagos of 2-5 islands; a fitness function that returns NaN for some genomes; ties) "
+             "crowding; islands and serial archipelagos of 1-5 islands; a fitness function that returns NaN for some genomes; ties) "
              "- best non-NaN fitness per generation must not increase, hall-of-fame best must bound everything offered",
         samples=mon["samples"],
         correspondence=dict(cases=len(cases), disagreements=len(bad)),
